@@ -524,6 +524,12 @@ def check_reversed_stack(ctx, R, classes):
                             ok = True
                         elif isinstance(par, ast.Call) and src(par.func) == 'len':
                             ok = True
+                        elif isinstance(par, ast.Call) and src(par.func) == 'reversed' and len(par.args) == 1:
+                            ok = True       # reversed again: original order restored
+                        elif isinstance(par, ast.Subscript) and par.value is n and isinstance(par.slice, ast.Slice) \
+                                and par.slice.step is not None and src(par.slice.step) == '-1' and par.slice.lower is None \
+                                and par.slice.upper is None:
+                            ok = True
                         if not ok:
                             bad = n
                 R.ob('REVERSED-STACK', ctx.construct(fn), name, bad is None and uses > 0,
@@ -803,6 +809,12 @@ def check_paired_buffer(ctx, R, classes):
                     for e in st.events:
                         if e.kind == 'EM' and e.depth == 0 and ('field:' + d) in (e.x.get('data_tags') or ()):
                             okm = ('field:' + m) in (e.b or ())
+                            if not okm:
+                                # the metadata list is filled by an explicit loop over the twin and this path is the
+                                # loop's zero-iteration exit (an empty twin): nothing to carry
+                                i_em = st.events.index(e)
+                                okm = any(x.kind == 'LOOPEXIT' and x.a == 0 and x.c == 'cond'
+                                          and ('field:' + m) in ((x.x or {}).get('iter_tags') or ()) for x in st.events[:i_em])
                             if acc is None or (acc[0] and not okm):
                                 acc = (okm, e.line, None if okm else st.events)
                 if acc is not None:
